@@ -479,8 +479,23 @@ func attribute(sessions []*session, log []appliedRec) (apps []app, firstConn map
 		for j := lo; j < hi; j++ {
 			k := j - lo
 			if k >= len(ents) || ents[k].F.Hash != log[j].Hash {
-				return nil, nil, map[string]any{"session": s.Idx, "apply_index": j, "applied_head": log[j].Head,
+				bad := map[string]any{"session": s.Idx, "apply_index": j, "applied_head": log[j].Head,
 					"entries_on_wire": len(ents), "applied_in_session": hi - lo}
+				// Was this payload forwarded to the reader on ANOTHER of its connections? Then
+				// the apply was merely attributed to the wrong connection (the split point is
+				// "length of the apply log when the proxy accepted the connection", which an
+				// apply of an already-read frame of the previous connection can overtake on a
+				// loaded machine): the monitor cannot judge this reader, but nothing was
+				// applied that was not on the wire.
+				for _, o := range sessions {
+					for _, rf := range readerView(o) {
+						if rf.F.IsEntry && rf.F.Hash == log[j].Hash {
+							bad["attribution_ambiguous_payload_was_forwarded_on_session"] = o.Idx
+							return nil, nil, bad
+						}
+					}
+				}
+				return nil, nil, bad
 			}
 			a := app{Sess: s.Idx, RF: ents[k], Label: "desynced", SIdx: -1}
 			if ents[k].Chunk >= 0 {
@@ -555,6 +570,10 @@ func evaluate(res *caseResult, sp caseSpec, queued map[[32]byte]*genEntry, log [
 	// attribute applied entries to connections and to frames on the wire
 	apps, firstConn, bad := attribute(sessions, log)
 	if bad != nil {
+		if _, amb := bad["attribution_ambiguous_payload_was_forwarded_on_session"]; amb {
+			res.Inconcl = fmt.Sprintf("applied entries could not be attributed to connections (apply index %v): %v", bad["apply_index"], bad)
+			return
+		}
 		add(sigWirePrefix, bad)
 		return
 	}
